@@ -4,8 +4,13 @@ Four streams:
   ops       random operation sequences on one SupplyChainNetwork (+ a pool of SupplyChainProduct objects); after EVERY
             operation the full structure and every derived view is (a) compared with the Gallina model Net/Graph.v +
             Net/Bom.v and (b) checked by an oracle that recomputes the views independently from the raw lists.
+            The oracle holds the network's product look-ups against the HISTORY of the calls (World.local: products added to the
+            network itself and not removed from it since), not against the network's own list of local products.
+  prodhist  (part of ops, oracle only) every short history of registering / unregistering one product at the nodes and at the
+            network itself on a two-node network.
   builders  network_from_edges / single_stage / serial / owmr / mwor with all argument shapes; compared with
-            Net/Builders.v and checked against the documented postconditions.
+            Net/Builders.v and checked against the documented postconditions; the parameters of the constructed DemandSource
+            (numbers per node; demand_list / probabilities = one list per node, None slots in any position) by the oracle.
   rebuild   serial / owmr / mwor called repeatedly with the same argument objects (Policy, DemandSource, DisruptionProcess) with
             changes by the user in between; oracle only: every network built so far keeps the documented placement, policies
             point to their own node, the caller's argument objects are left alone.
@@ -21,9 +26,12 @@ NPROD = 4
 RULE = ('ops: sequences of <= 30 operations (add_node, add_edge, add_edges_from_list, add_successor, add_predecessor with '
         'new or existing nodes, remove_node, node/network add_product/remove_product, set_bill_of_materials, reindex_nodes '
         'with injective dicts) on <= 6 live nodes (indices < 12) and 4 pooled products, plus a malformed stream (unknown '
-        'node/product indices, incomplete reindex dict) ended at the first exception; one case per operation prefix. '
+        'node/product indices, incomplete reindex dict) ended at the first exception; one case per operation prefix; products are removed by index or by object, network.add_product prefers (1/2) a product some node handles already and node.remove_product (1/2) one that is also registered at the network, '
+        'and the oracle holds network.products / product_indices / products_by_index / parse_product against the HISTORY of the calls (products added to the network itself and not removed from it since, kept by the harness, plus the products the nodes hold), not against the network\'s own list of local products. '
+        'product registration histories (oracle only): every sequence of 3 (quick; 4 thorough) calls out of {node.add_product at either node, network.add_product, node.remove_product at either node by index / by object, network.remove_product, remove_node, a second product} on the network 0 -> 1, plus a sample of the sequences one call longer. '
         'builders: every builder x argument shape (None, scalar, list with/without node_order_in_lists, dict, per-node '
-        'None entries) x sizes <= 5 x labelling (default or random); attribute values include 0 and 0.0 (kept distinct from None), up to 4 further copied attributes per case (oracle only, incl. the holding_cost / lead_time alias keywords and round_to_int=False) and a systematic sweep placing exactly 0 / False at one node for every copied attribute x shape x builder. levels: serial systems of 1..7 nodes, random labelling, levels k/4, half of them made by serial_system() and half reached another way: '
+        'None entries) x sizes <= 5 x labelling (default or random); demand_type in N / P / UD / CD; the parameters of the constructed DemandSource (oracle only): mean / standard_deviation / lo / hi as scalar, list, dict and demand_list / probabilities as flat list (one value for all nodes), per-node list of lists with None slots in any position (first slot included) or dict, '
+        'with a systematic sweep over every builder x size <= 4 x labelling x list order (default, reversed, random) x every set of demand-carrying nodes getting a custom-discrete demand x (per-node list, dict, flat list); attribute values include 0 and 0.0 (kept distinct from None), up to 4 further copied attributes per case (oracle only, incl. the holding_cost / lead_time alias keywords and round_to_int=False) and a systematic sweep placing exactly 0 / False at one node for every copied attribute x shape x builder. levels: serial systems of 1..7 nodes, random labelling, levels k/4, half of them made by serial_system() and half reached another way: '
         'nodes added in any order and linked afterwards (add_edge / add_edges_from_list in any order), grown from an inner node with add_successor / add_predecessor, '
         'a longer chain trimmed at its ends with remove_node, optionally re-indexed, or network_from_edges with the arcs in any order (so network.nodes is stored in any order relative to the chain); '
         'dict keys in any order, sometimes a key that is not a node; both conversions are repeated on the same network and the argument dicts are checked to be unchanged. rebuild (oracle only): serial_system / owmr_system / mwor_system called 2-3 times (same or different builder) with ONE set of argument objects (Policy, DemandSource, DisruptionProcess as singleton / list with or without node_order_in_lists / dict, with None entries; 1..4 nodes, random labels), the user changing the argument objects and/or the network just built between the builds; every network built so far is read after every build and at the end, and the argument objects of the caller before and after each call. non-trivial = the network after the prefix has >= 2 nodes and >= 1 arc (ops), >= 2 nodes (builders, levels, rebuild); '
@@ -47,6 +55,9 @@ class World:
         SupplyChainNetwork, SupplyChainNode, SupplyChainProduct, DemandSource = _imports()
         self.net = SupplyChainNetwork()
         self.pool = {p: SupplyChainProduct(p) for p in range(NPROD)}
+        # history kept by the harness (never read back from the network): the products the user added to the network ITSELF
+        # with network.add_product() and has not removed from it with network.remove_product() since, in order of adding
+        self.local = []
 
     def fresh(self, i, ext, dem):
         _, SupplyChainNode, _, DemandSource = _imports()
@@ -81,11 +92,13 @@ class World:
         elif k == 'node_add_prod':
             net.nodes_by_index[op[1]].add_product(self.pool[op[2]])
         elif k == 'node_rem_prod':
-            net.nodes_by_index[op[1]].remove_product(op[2])
+            net.nodes_by_index[op[1]].remove_product(self.pool[op[2]] if len(op) > 3 and op[3] else op[2])
         elif k == 'net_add_prod':
             net.add_product(self.pool[op[1]])
+            if op[1] not in self.local: self.local.append(op[1])
         elif k == 'net_rem_prod':
-            net.remove_product(op[1])
+            net.remove_product(self.pool[op[1]] if len(op) > 2 and op[2] else op[1])
+            if op[1] in self.local: self.local.remove(op[1])
         elif k == 'set_bom':
             self.pool[op[1]].set_bill_of_materials(op[2], float(Fraction(op[3])) if Fraction(op[3]).denominator != 1 else int(Fraction(op[3])))
         elif k == 'reindex':
@@ -275,13 +288,17 @@ def gen_ops(rng, maxlen=30, maxnodes=6):
         elif r < 0.79:
             n = rng.choice(live)
             p = rng.choice(sorted(nprods[n])) if nprods[n] and rng.random() < 0.8 else rng.randrange(NPROD)
-            ops.append(['node_rem_prod', n, p]); nprods[n].discard(p)
+            if nprods[n] & local and rng.random() < 0.5: p = rng.choice(sorted(nprods[n] & local))     # a product that is registered at both levels
+            ops.append(['node_rem_prod', n, p, rng.random() < 0.3]); nprods[n].discard(p)           # by index or by object
         elif r < 0.83:
-            p = rng.randrange(NPROD); ops.append(['net_add_prod', p]); local.add(p); pnet.add(p)
+            p = rng.randrange(NPROD)
+            handled = sorted({q for s_ in nprods.values() for q in s_} - local)
+            if handled and rng.random() < 0.5: p = rng.choice(handled)                               # a product some node handles already
+            ops.append(['net_add_prod', p]); local.add(p); pnet.add(p)
         elif r < 0.86:
             cands = [p for p in range(NPROD) if in_net(p)]
             if not cands: continue
-            p = rng.choice(cands); ops.append(['net_rem_prod', p]); local.discard(p)
+            p = rng.choice(cands); ops.append(['net_rem_prod', p, rng.random() < 0.3]); local.discard(p)
         elif r < 0.96:
             p = rng.randrange(NPROD)
             cands = [q for q in range(NPROD) if (p not in pnet) or in_net(q)]
@@ -399,6 +416,33 @@ def oracle_ops(world, op):
     exp_np = set(net._local_product_indices) | {p for n in net.nodes for p in n.product_indices} | {ext_idx(n.index) for n in net.nodes}
     if set(net.product_indices) != exp_np:
         B('network-product-set', 'network.product_indices %r, products of the nodes + network-level products + external-supplier dummies give %r' % (sset(net.product_indices), sset(exp_np)))
+    # network-level registration against the HISTORY of the calls (world.local is kept by the harness, never read back from the
+    # network): "products" is documented to contain the products explicitly added with network.add_product() (until they are
+    # removed from the network itself with network.remove_product()) as well as the products handled by the nodes -- whatever a
+    # node did with the product before or after, and whether or not a node handled it at the time it was added
+    hist = list(world.local)
+    exp_hist = set(hist) | {p for n in net.nodes for p in n.product_indices} | {ext_idx(n.index) for n in net.nodes}
+    if set(net.product_indices) != exp_hist:
+        B('network-products-vs-history', 'network.product_indices %r; added to the network itself and not removed from it since: %r, handled by the nodes: %r, '
+          'so documented %r (missing %r, extra %r)' % (sset(net.product_indices), hist, sset({p for n in net.nodes for p in n.product_indices if p >= 0}),
+                                                      sset(exp_hist), sset(exp_hist - set(net.product_indices)), sset(set(net.product_indices) - exp_hist)))
+    if [q.index for q in net.products] != list(net.product_indices):
+        B('network-product-lists', 'network.products %r vs product_indices %r' % ([q.index for q in net.products], net.product_indices))
+    for p, obj in world.pool.items():
+        known = p in exp_hist
+        if known:
+            # the look-ups give the very object the user added
+            if pbi.get(p) is not obj: B('products_by_index-object', 'products_by_index[%d] is %r, not the product object that was added' % (p, pbi.get(p)))
+            for form, arg in (('index', p), ('object', obj)):
+                r = call(net.parse_product, arg)
+                if not (isinstance(r, tuple) and len(r) == 2 and r[0] is obj and r[1] == p):
+                    B('parse_product-known-product', 'parse_product(%s of product %d) gives %r; the product is in the network (added to the network itself: %s, handled by nodes %r)' % (
+                        form, p, r, p in hist, [n.index for n in net.nodes if p in n.product_indices]))
+            if obj.network is not net: B('product-network-pointer', 'product %d .network is not the network' % p)
+        else:
+            r = call(net.parse_product, p)
+            if r != ('err', 'ValueError'):
+                B('parse_product-unknown-product', 'parse_product(%d) gives %r; the product is neither added to the network nor handled by a node (ValueError documented)' % (p, r))
     # 4. BOM views vs product BOMs
     if bad: return bad          # graph / index structure already incoherent
     def bomq(p1, p2):
@@ -460,7 +504,8 @@ def oracle_ops(world, op):
 # =================================================================================================================
 # builders
 
-DT_TAG = {'N': 1, 'P': 2, 'UD': 3}
+DT_TAG = {'N': 1, 'P': 2, 'UD': 3, 'CD': 4}
+DT_VALUES = ['N', 'P', 'UD', 'CD']
 TAG_DT = {v: k for k, v in DT_TAG.items()}
 
 
@@ -506,6 +551,48 @@ def add_extras(rng, c, nodes, order, k=None):
     if rng.random() < 0.5: ex.append(['round_to_int', mk(lambda: rng.random() < 0.5)])
     c['extra'] = ex
     return c
+
+
+# parameters of the DemandSource a builder constructs from demand_type (oracle only).  mean / standard_deviation / lo / hi take one
+# number per node; demand_list / probabilities take one LIST per node, so for them a flat list is ONE value shared by all nodes
+# (shape 'scalar' whose value is a list) and only a list that contains lists is a per-node list (documented in
+# build_node_data_dict / network_from_edges); slots of nodes without such a demand are None, in ANY position incl. the first.
+DPAR_NUM = ['mean', 'standard_deviation', 'lo', 'hi']
+DPAR_LIST = ['demand_list', 'probabilities']
+DPAR_DEFAULT = {'mean': 10, 'standard_deviation': 2}       # what the harness passes when the case does not give the parameter
+
+
+def dpar_list_val(rng, name):
+    k = rng.randint(1, 4)
+    if name == 'demand_list': return [rng.randint(0, 9) for _ in range(k)]
+    return [rng.choice([0.125, 0.25, 0.5, 0.375]) for _ in range(k)]
+
+
+def gen_dpar_shape(rng, name, nodes, order, none_p=0.35, shape=None):
+    listy = name in DPAR_LIST
+    val = (lambda: dpar_list_val(rng, name)) if listy else (lambda: rng.randint(0, 9))
+    shape = shape or rng.choice(['scalar', 'list', 'list', 'dict'])
+    ent = lambda: None if rng.random() < none_p else val()
+    if shape == 'scalar': return ['scalar', val()]
+    if shape == 'list':
+        l = [ent() for _ in order]
+        if listy and all(v is None for v in l): l[rng.randrange(len(l))] = val()     # (a list without any list in it is a flat list = singleton)
+        return ['list', l]
+    return ['dict', [[i, ent()] for i in nodes if rng.random() < 0.85]]
+
+
+def add_dpar(rng, c, nodes, order):
+    c['dpar'] = []
+    if c['dt'][0] == 'none' or rng.random() < 0.35: return c
+    names = rng.sample(DPAR_NUM + DPAR_LIST + DPAR_LIST, rng.randint(1, 3))
+    c['dpar'] = [[nm, gen_dpar_shape(rng, nm, nodes, order)] for nm in dict.fromkeys(names)]
+    return c
+
+
+def dpar_shape_name(name, sh):
+    if sh is None: return 'default'
+    if name in DPAR_LIST: return {'scalar': 'flat-list', 'list': 'per-node-list', 'dict': 'dict'}[sh[0]]
+    return sh[0]
 
 
 def gen_builder(rng, maxn=5):
@@ -566,13 +653,14 @@ def gen_builder(rng, maxn=5):
     c['hc'] = shape('hc', lambda: attr_val(rng))
     c['so'] = shape('so', lambda: attr_val(rng))
     c['ds'] = shape('ds', lambda: rng.choice(['T', 'T', 'U'])) if rng.random() < 0.55 else ['none']
-    c['dt'] = shape('dt', lambda: rng.choice(['N', 'P', 'UD'])) if rng.random() < 0.7 else ['none']
+    c['dt'] = shape('dt', lambda: rng.choice(DT_VALUES)) if rng.random() < 0.7 else ['none']
     if mal == 'list-length':
         c['malformed'] = 'list-length' if any(c[a][0] == 'list' and len(c[a][1]) != len(order) for a in ('hc', 'so', 'ds', 'dt')) else None
     c['st'] = gen_shape(rng, nodes, order, lambda: rng.choice(['U', None])) if rng.random() < 0.4 else ['none']   # ignored by the code
     if c['st'][0] == 'list' and len(c['st'][1]) != len(order): c['st'] = ['none']
     c['bogus'] = (c['malformed'] is None and rng.random() < 0.03)
     add_extras(rng, c, nodes, order)
+    if c['malformed'] is None: add_dpar(rng, c, nodes, order)
     return c
 
 
@@ -618,6 +706,8 @@ def run_impl_builder(c):
     if c.get('bogus'): kw['no_such_attribute'] = 1
     if c['dt'][0] != 'none':
         kw['mean'] = 10; kw['standard_deviation'] = 2
+    for name, sh in c.get('dpar', []):
+        kw[name] = py_kw(sh)
     k = c['kind']
     try:
         if k == 'nfe':
@@ -639,6 +729,11 @@ def run_impl_builder(c):
     extras = {name: [(n.index, getattr(n, name)) for n in net.nodes] for name, _ in c.get('extra', []) if name not in ('round_to_int', 'holding_cost', 'lead_time')}
     extras['shipment_lead_time'] = [(n.index, n.shipment_lead_time) for n in net.nodes]
     extras['round_to_int'] = [(n.index, n.demand_source.round_to_int if n.demand_source is not None else None) for n in net.nodes]
+    if c['dt'][0] != 'none':
+        for name in DPAR_NUM + DPAR_LIST:
+            # (mean / standard_deviation are read as stored: the public properties derive a value from the other parameters when none is stored)
+            rd = (lambda ds: getattr(ds, '_' + name)) if name in ('mean', 'standard_deviation') else (lambda ds: getattr(ds, name))
+            extras['demand.' + name] = [(n.index, rd(n.demand_source) if n.demand_source is not None else None) for n in net.nodes]
     return ('ok', obs, extras), net
 
 
@@ -729,9 +824,19 @@ def oracle_builder(c, obs, extras=None):
         want = expected_entry(c['hc'], order, i)
         if want is None and 'holding_cost' in ex: want = expected_entry(ex['holding_cost'], order, i)
         if not same(v, want): B('attribute-mapping', 'node %d local_holding_cost=%r, documented %r (shape %s)' % (i, v, want, c['hc'][0]))
+    dpar = {nm: sh for nm, sh in c.get('dpar', [])}
     if extras is not None:
         for name, vals in extras.items():
             for (i, v) in vals:
+                if name.startswith('demand.'):
+                    # parameters of the DemandSource constructed from demand_type: slot k of a per-node list belongs to node order[k]
+                    if not dem_by_dt.get(i): continue
+                    nm = name[7:]; sh = dpar.get(nm)
+                    want = expected_entry(sh, order, i) if sh is not None else (DPAR_DEFAULT.get(nm) if c['dt'][0] != 'none' else None)
+                    if isinstance(v, tuple): v = list(v)
+                    if not same(v, want):
+                        B('demand-parameter-mapping|%s' % dpar_shape_name(nm, sh), 'node %d demand_source.%s=%r, documented %r (argument %r, list order %r)' % (i, nm, v, want, None if sh is None else py_kw(sh), order))
+                    continue
                 if name == 'shipment_lead_time':
                     want = expected_entry(ex['shipment_lead_time'], order, i) if 'shipment_lead_time' in ex else None
                     if want is None and 'lead_time' in ex: want = expected_entry(ex['lead_time'], order, i)
@@ -1280,7 +1385,10 @@ def expect_err(world, op):
     if k in ('add_succ', 'add_pred', 'node_add_prod', 'node_rem_prod'):
         return None if op[1] in idx else 'KeyError'
     if k == 'net_rem_prod':
-        return None if op[1] in net.products_by_index else 'ValueError'
+        # known to the network by the HISTORY of the calls (added to the network itself and not removed since, or handled by a
+        # node now), not by what the network's own tables say
+        known = set(world.local) | {p for n in net.nodes for p in n.product_indices} | {ext_idx(n.index) for n in net.nodes}
+        return None if op[1] in known else 'ValueError'
     if k == 'set_bom':
         p = world.pool[op[1]]
         return 'ValueError' if (p.network is not None and op[2] not in p.network.products_by_index) else None
@@ -1401,6 +1509,37 @@ def explore_ops(chk, n, maxlen, do_model=True):
             chk.mismatch('trace lengths differ: implementation %d steps, model %d' % (len(steps), len(mo)), {'stream': 'ops', 'ops': ops})
 
 
+# ---- systematic part of the operation stream: registration histories of one product ----------------------------------------
+# A product can be registered at two levels: at nodes (node.add_product) and at the network itself (network.add_product); either
+# registration can be taken back (node.remove_product / remove_node, network.remove_product), in any order.  Every sequence of
+# `depth` such calls for product 0 on the two-node network 0 -> 1 (plus one call that involves a second product) is run, with the
+# oracle after every call.  The expected product list depends on the HISTORY only (World.local + what the nodes hold).
+
+PROD_HISTORY_ALPHABET = [['node_add_prod', 0, 0], ['node_add_prod', 1, 0], ['net_add_prod', 0], ['node_rem_prod', 0, 0, False], ['node_rem_prod', 1, 0, True],
+                         ['net_rem_prod', 0, False], ['remove_node', 1], ['node_add_prod', 1, 1]]
+PROD_HISTORY_BASE = [['add_node', 0, True, False], ['add_succ', 0, 1, False, True]]
+
+
+def explore_prod_histories(chk, depth, sample=None):
+    seqs = [list(t) for t in itertools.product(range(len(PROD_HISTORY_ALPHABET)), repeat=depth)]
+    if sample is not None and len(seqs) > sample: seqs = chk.rng.sample(seqs, sample)
+    reported = set()
+    for t in seqs:
+        ops = PROD_HISTORY_BASE + [list(PROD_HISTORY_ALPHABET[j]) for j in t]
+        r = run_ops_oracle(ops)
+        chk.count('product_registration_history_depth=%d' % depth)
+        kinds = {o[0] for o in ops[2:]}
+        if {'node_add_prod', 'net_add_prod'} <= kinds and kinds & {'node_rem_prod', 'remove_node', 'net_rem_prod'}: chk.count('product_registration_history=both-levels-then-removal')
+        for k, sig, what in r:
+            if sig not in reported:
+                reported.add(sig)
+                small = shrink_ops(ops[:k + 1], sig)
+                chk.fail(sig, what + ' [after %d operations; shrunk to %d]' % (k + 1, len(small)), {'stream': 'ops', 'ops': small})
+            else:
+                chk.fail(sig, what, {'stream': 'ops', 'ops': ops[:k + 1]})
+        chk.case({'stream': 'ops', 'ops': ops}, True, key='prodhist:' + json.dumps(t))
+
+
 SHAPES = ['none', 'scalar', 'list', 'dict']
 
 
@@ -1446,11 +1585,12 @@ def enum_builders(rng, sizes):
                                 if shape == 'list': return ['list', [None if rng.random() < 0.2 else val() for _ in order]]
                                 return ['dict', [[i, None if rng.random() < 0.15 else val()] for i in nodes if rng.random() < 0.8]]
                             c['ds'] = mk(ds_s, lambda: rng.choice(['T', 'T', 'U']))
-                            c['dt'] = mk(dt_s, lambda: rng.choice(['N', 'P', 'UD']))
+                            c['dt'] = mk(dt_s, lambda: rng.choice(DT_VALUES))
                             c['hc'] = mk(rng.choice(SHAPES), lambda: attr_val(rng))
                             c['so'] = mk(rng.choice(SHAPES), lambda: attr_val(rng))
                             c['st'] = mk(rng.choice(SHAPES), lambda: rng.choice(['U', None]))
                             add_extras(rng, c, nodes, order)
+                            add_dpar(rng, c, nodes, order)
                             out.append(c)
     return out
 
@@ -1525,6 +1665,59 @@ def enum_zero(rng):
     return out
 
 
+def enum_demand_params(rng, sizes=(1, 2, 3, 4)):
+    """systematic part: for every builder x size x labelling x list order, every pattern of WHICH nodes (among those documented to
+    carry demand; any node for network_from_edges) get a custom-discrete demand; demand_type / demand_list / probabilities (and one
+    numeric parameter) are given per node, as list (None in the slots of the other nodes -- so a None lands in every position, the
+    first included, whenever a node without such a demand comes first in the list order) or as dict; plus the flat-list form"""
+    out = []
+    for kind in ('nfe', 'single', 'serial', 'owmr', 'mwor'):
+        for size in sizes:
+            if kind == 'single' and size > 1: continue
+            if kind in ('owmr', 'mwor') and size < 2: continue
+            for relabel in (False, True):
+                for lists_mode in (None, 'rev', 'perm'):
+                    if (kind == 'single' or size == 1) and lists_mode: continue
+                    base = {'stream': 'builder', 'kind': kind, 'malformed': None, 'bogus': False, 'ds': ['none'], 'hc': ['scalar', 1], 'so': ['none'], 'st': ['none'], 'extra': []}
+                    if kind == 'nfe':
+                        labels = rng.sample(range(10), size) if relabel else list(range(size))
+                        base['edges'] = [[labels[rng.randrange(j)], labels[j]] for j in range(1, size)]; base['sys'] = None
+                        nodes = []
+                        for e in base['edges']:
+                            for x in e:
+                                if x not in nodes: nodes.append(x)
+                        if not base['edges']: nodes = [0]
+                        entitled = nodes
+                    elif kind == 'single':
+                        base['index'] = rng.randrange(10) if relabel else None; base['sys'] = None
+                        nodes = [0 if base['index'] is None else base['index']]; entitled = nodes
+                    else:
+                        base['size'] = size
+                        default = list(range(size)) if kind in ('serial', 'owmr') else list(range(1, size)) + [0]
+                        base['sys'] = rng.sample(range(10), size) if relabel else None
+                        nodes = base['sys'] if base['sys'] is not None else default
+                        entitled = nodes[1:] if kind == 'owmr' else [nodes[-1]]
+                    lists = None
+                    if lists_mode and not (kind == 'nfe' and not base['edges']):
+                        lists = list(reversed(nodes if kind != 'nfe' else sorted(nodes))) if lists_mode == 'rev' else rng.sample(nodes, len(nodes))
+                    base['lists'] = lists
+                    order = lists if lists is not None else (sorted(nodes) if kind == 'nfe' else nodes)
+                    pats = [p for r in range(1, len(entitled) + 1) for p in itertools.combinations(entitled, r)]
+                    if len(pats) > 5: pats = rng.sample(pats, 5)
+                    for pat in pats:
+                        for form in ('list', 'dict', 'flat'):
+                            c = json.loads(json.dumps(base))
+                            per = lambda val: (['list', [val(i) if i in pat else None for i in order]] if form == 'list' else ['dict', [[i, val(i)] for i in nodes if i in pat]])
+                            c['dt'] = per(lambda i: 'CD')
+                            if form == 'flat':
+                                c['dpar'] = [['demand_list', ['scalar', [1, 2, 3]]], ['probabilities', ['scalar', [0.5, 0.25, 0.25]]]]
+                            else:
+                                c['dpar'] = [['demand_list', per(lambda i: [i, i + 1, i + 2])], ['probabilities', per(lambda i: [0.5, 0.25, 0.25] if i % 2 else [0.25, 0.25, 0.5])],
+                                             [rng.choice(DPAR_NUM), per(lambda i: i + 1)]]
+                            out.append(c)
+    return out
+
+
 def builder_fn(c):
     return {'nfe': 'network_from_edges', 'single': 'single_stage_system'}.get(c['kind'], c['kind'] + '_system')
 
@@ -1537,6 +1730,11 @@ def check_builder_case(chk, c, im, m=None, do_model=True):
         vals = [c[a][1]] if c[a][0] == 'scalar' else ([v for v in c[a][1]] if c[a][0] == 'list' else ([v for _, v in c[a][1]] if c[a][0] == 'dict' else []))
         if any(v is not None and v == 0 for v in vals): chk.count('zero_value_%s' % a)
     for nm, sh in c.get('extra', []): chk.count('extra_attr=%s' % nm)
+    for nm, sh in c.get('dpar', []):
+        chk.count('demand_parameter=%s:%s' % (nm, dpar_shape_name(nm, sh)))
+        if sh[0] == 'list' and len(sh[1]) > 1:
+            nn = [j for j, v in enumerate(sh[1]) if v is None]
+            if nn: chk.count('demand_parameter_list_None_slot=%s' % ('first' if 0 in nn else 'later-only'))
     chk.count('node_order_in_lists=%s' % ('given' if c['lists'] is not None else 'None'))
     _, nodes = builder_nodes(c)
     if c.get('bogus'):
@@ -1572,7 +1770,7 @@ def check_builder_case(chk, c, im, m=None, do_model=True):
 
 
 def explore_builders(chk, n, sizes, do_model=True):
-    cases = [gen_builder(chk.rng, max(sizes)) for _ in range(n)] + enum_builders(chk.rng, sizes) + enum_malformed(chk.rng) + enum_zero(chk.rng)
+    cases = [gen_builder(chk.rng, max(sizes)) for _ in range(n)] + enum_builders(chk.rng, sizes) + enum_malformed(chk.rng) + enum_zero(chk.rng) + enum_demand_params(chk.rng)
     impl = [run_impl_builder(c)[0] for c in cases]
     todo = [i for i, c in enumerate(cases) if not c.get('bogus')]
     model = {}
@@ -1627,6 +1825,10 @@ def run(chk):
     else:
         n_ops, maxlen, n_b, sizes, n_l, maxl, n_r = 2500, 30, 6000, [1, 2, 3, 4, 5], 3000, 9, 3000
     explore_ops(chk, n_ops, maxlen)
+    if chk.tier == 'quick':
+        explore_prod_histories(chk, 3); explore_prod_histories(chk, 4, sample=200)
+    else:
+        explore_prod_histories(chk, 4); explore_prod_histories(chk, 5, sample=4000)
     explore_builders(chk, n_b, sizes)
     if chk.tier != 'quick':
         explore_builders(chk, 0, [1, 2, 3, 4, 5]); explore_builders(chk, 0, [1, 2, 3, 4, 5])     # two more systematic sweeps with fresh values
